@@ -9,6 +9,7 @@ pub mod util {
     use vstd::std_specs::ops::*;
     use crate::*;
     use crate::ispec::*;
+    use vstd::arithmetic::power2::pow2;
     verus! {
     broadcast use {crate::num_bigint::axiom_into_refl_obeys, crate::num_bigint::axiom_into_refl};
 
